@@ -21,7 +21,7 @@ from typing import List, Optional
 from ..cfg import cfg_of
 from ..flow import flow_of
 from ..model import unparse, stmt_key, Func, AnchorError, names_in
-from .common import Ctx, find_api_functions, dominated, done_nodes, pass_outcomes, witness_path, calls_to, error_code_of
+from .common import Ctx, find_api_functions, dominated, done_nodes, pass_outcomes, witness_path, calls_to, error_code_of, ancestors
 from .c11 import inspectors
 
 PROP = "C09"
@@ -300,6 +300,65 @@ def run(ctx: Ctx) -> None:
     from .c03 import global_cache_rule
     rep.rule("C09.R8", "as C03.R3(i): the process-wide interaction cache has no writer")
     global_cache_rule(ctx, "C09.R8")
+    # ---- R11 / R12 / R13 ------------------------------------------------------------------------------------------------
+    from .c13 import pair_keys_rule
+    rep.rule("C09.R11", "as C13.R8: the (key, signature) pairs of the loaded paths are keyed by the path (a constant key lets two paths swap their content "
+                        "without changing the reader's signature)")
+    pair_keys_rule(ctx, "C09.R11")
+    rep.rule("C09.R12", "dds.load uses its raw argument only to build the normalised path: every lookup (evaluation map, store) is made with the normalised value")
+    ld = prog.funcs.get("dds._api.load")
+    if ld is None:
+        raise AnchorError("dds._api.load not found")
+    raw = [p_ for p_ in ld.params][:1]
+    n12 = 0
+    for x in ld.own_nodes():
+        if isinstance(x, ast.Name) and raw and x.id == raw[0] and isinstance(x.ctx, ast.Load):
+            par = ld.module.parent.get(x)
+            n12 += 1
+            ok12 = (isinstance(par, ast.Call) and x in par.args and unparse(par.func).split(".")[-1] in ("create", "DDSPath", "str")) or isinstance(par, ast.FormattedValue)
+            desc = f"use of the raw argument `{raw[0]}` of load"
+            if ok12:
+                rep.ok("C09.R12", ld.qname, desc + ": normalisation / message only", ld.loc(x), nontrivial=False)
+            else:
+                rep.bad("C09.R12", ld.qname, desc + " is the normalisation only", ld.loc(x), [f"{ld.loc(x)}: `{unparse(par, 60)}` uses the raw argument",
+                        "dds.load(pathlib.Path('/p')) after the keep of '/p' in the same evaluation: the lookup in the evaluation's map never matches a Path object, "
+                        "the load falls back to the store and returns the previous content"], stmt_key(par), what="load looks the raw (un-normalised) argument up")
+    rep.floor("C09.R12", n12, 1)
+    rep.rule("C09.R13", "the walkers of all_stores / all_loads / all_store_paths leave early only on the 'already visited' test: the sub-calls of a node that "
+                        "keeps a path are visited like any others")
+    n13 = 0
+    for q in ("dds.structures_utils.FunctionIndirectInteractionUtils.all_stores", "dds.structures_utils.FunctionIndirectInteractionUtils.all_loads",
+              "dds.structures_utils.FunctionInteractionsUtils.all_store_paths"):
+        c_ = prog.funcs.get(q)
+        if c_ is None:
+            continue
+        walkers = [w_ for w_ in c_.nested.values() if any(isinstance(y, ast.Call) and isinstance(y.func, ast.Name) and y.func.id == w_.name for y in w_.own_nodes())]
+        if not walkers:
+            n13 += 1
+            rep.info("C09.R13", c_.qname, f"{c_.name} has no recursive walker of its own (traversal delegated): not judged here", c_.loc())
+        for w_ in walkers:
+            n13 += 1
+            bad13 = []
+            for r in [y for y in w_.own_nodes() if isinstance(y, ast.Return)]:
+                guard = None
+                for a in ancestors(w_.module, r):
+                    if isinstance(a, ast.If):
+                        guard = a
+                        break
+                    if isinstance(a, (ast.FunctionDef, ast.AsyncFunctionDef)):
+                        break
+                visited_guard = guard is not None and any(isinstance(t, ast.Compare) and isinstance(t.ops[0], (ast.In, ast.NotIn)) for t in ast.walk(guard.test))
+                if not visited_guard:
+                    bad13.append(r)
+            desc = f"{c_.name}.{w_.name}: every node's sub-calls are visited"
+            if bad13:
+                rep.bad("C09.R13", w_.qname, desc, w_.loc(bad13[0]), [f"{w_.loc(r)}: `return` that is not the 'already visited' exit: the children of this node are skipped" for r in bad13] + [
+                        "a producer nested inside an annotated data function is not collected: its path is resolved from the store up front and a read-before-produce is accepted silently"],
+                        stmt_key(bad13[0]), what="the traversal that collects produced / loaded paths stops below a node")
+            else:
+                rep.ok("C09.R13", w_.qname, desc, w_.loc())
+    rep.floor("C09.R13", n13, 2)
+
     # ---- R10: the collectors of produced paths start at the root -------------------------------------------------------
     rep.rule("C09.R10", "the collectors of kept paths (all_stores / all_store_paths) record the path of the node they are called on, not only of its "
                         "descendants: the root of dds.eval(data_function) produces its own path")
